@@ -26,7 +26,7 @@
    C04_wrap_implicit_lines / _copies read the spec off for the statement's own case `X*` with X holding
    explicit repeaters at any depth. *)
 From Emmet Require Import lib.Base model.MarkupTokenizer model.MarkupParser model.MarkupConvert
-     proofs.ConvertProofs proofs.TextSpec proofs.TextConvert proofs.WrapFull proofs.WrapLines.
+     proofs.ConvertProofs proofs.TextSpec proofs.TextConvert proofs.WrapFull proofs.WrapLines proofs.ParserClean.
 Local Open Scope Z_scope.
 
 (* ---- wrap_implicit, full: the converter is the spec, whole abbreviation *)
@@ -36,6 +36,17 @@ Theorem C04_wrap_implicit :
     convert env max_repeat root = Ok (convert_w env max_repeat root).
 Proof. exact convert_wrap_full. Qed.
 Print Assumptions C04_wrap_implicit.
+
+(* the hypothesis holds for whatever the parser returns on a tokenizer output: from the abbreviation TEXT,
+   whatever it is, with every wrap text and every limit, convert is the spec *)
+Theorem C04_wrap_implicit_text :
+  forall (jsx : bool) (env : cenv) (max_repeat : option N) (s : str) (toks : list token) (root : list tnode),
+    tokenize s = TOk toks -> parse jsx toks = POk root ->
+    convert env max_repeat root = Ok (convert_w env max_repeat root).
+Proof.
+  intros jsx env mr s toks root Ht Ep. apply convert_wrap_full. exact (parser_output_printable jsx s toks root Ht Ep).
+Qed.
+Print Assumptions C04_wrap_implicit_text.
 
 (* ... and one statement in ANY converter state: any repeater stack the converter can have built
    ([reps_ok]: copy indices of implicit repeaters are line indices), any budget, any flags *)
